@@ -182,6 +182,59 @@ fn print_family(dir: &Path, nfiles: usize) -> Vec<PathBuf> {
     let p = dir.join("fambig.thrift");
     std::fs::write(&p, s).unwrap();
     entries.push(p);
+    // type graphs: reference cycles of length 2..5 (direct, through containers, through unions), second
+    // cycles through one node, nodes that cannot derive Hash/Eq/Ord (a double below them) at every
+    // position of the cycle and declared before or after the cycle edge, chains between the gadgets.
+    // What each item derives is decided by graph walks whose start order and work lists are maps and sets.
+    let mut s = String::from("namespace rs fam.graph\n\nstruct P0 { 1: double d }\nstruct P1 { 1: list<double> ds }\nstruct P2 { 1: optional P0 inner, 2: optional string s }\n");
+    let ng = 16;
+    for g in 0..ng {
+        let l = 2 + g % 4;
+        let poisoned = g % 5 != 0;
+        let pz = g % l;
+        for i in 0..l {
+            let next = format!("N{}x{}", g, (i + 1) % l);
+            let edge = match (g + i) % 4 {
+                0 => format!("  1: optional {} next,\n", next),
+                1 => format!("  1: optional list<{}> next,\n", next),
+                2 => format!("  1: optional map<string, {}> next (pilota.rust_type = \"btree\"),\n", next),
+                _ => format!("  1: optional {} next (pilota.rust_wrapper_arc = \"true\"),\n", next),
+            };
+            let poison = if poisoned && i == pz { format!("  9: optional P{} p,\n", g % 3) } else { String::new() };
+            s.push_str(&format!("struct N{}x{} {{\n", g, i));
+            if g % 2 == 1 {
+                s.push_str(&poison);
+                s.push_str(&edge);
+            } else {
+                s.push_str(&edge);
+                s.push_str(&poison);
+            }
+            if g % 3 == 0 && i == 0 {
+                s.push_str(&format!("  2: optional N{}x{} back,\n", g, l - 1));
+            }
+            if g % 8 == 1 && i == 1 {
+                s.push_str(&format!("  3: optional N{}x0 other,\n", (g + 1) % ng));
+            }
+            if g == ng - 1 && i == 0 {
+                s.push_str("  4: optional list<N0x0> first,\n");
+            }
+            if g % 4 == 2 && i == 0 {
+                s.push_str(&format!("  5: optional UG{} u,\n", g));
+            }
+            s.push_str("  7: optional i64 v,\n  8: optional list<string> tags,\n}\n");
+        }
+        if g % 4 == 2 {
+            s.push_str(&format!("union UG{} {{ 1: N{}x1 a, 2: string s, 3: list<i32> k }}\n", g, g));
+        }
+    }
+    s.push_str("service Graph {\n");
+    for g in 0..ng {
+        s.push_str(&format!("  N{}x0 get{}(1: N{}x1 req),\n", g, g, g));
+    }
+    s.push_str("}\n");
+    let p = dir.join("famgraph.thrift");
+    std::fs::write(&p, s).unwrap();
+    entries.push(p);
     entries
 }
 
@@ -261,8 +314,9 @@ fn corpora(scratch: &Path, tier_thorough: bool) -> Vec<Corpus> {
     let pfam_dir = scratch.join("pfamily");
     let pfam = print_pfamily(&pfam_dir, if tier_thorough { 4 } else { 3 });
     v.push(Corpus { name: "pfamily_all_entries".into(), source: "protobuf", include: Some(pfam_dir), entries: pfam, modes: vec!["single", "split", "single_iu"] });
-    v.push(Corpus { name: "family_last_entry".into(), source: "thrift", include: Some(fam_dir), entries: vec![fam[fam.len() - 2].clone()], modes: vec!["single", "workspace"] });
-    v.push(Corpus { name: "family_big_namespace".into(), source: "thrift", include: None, entries: vec![fam.last().unwrap().clone()], modes: vec!["single", "split"] });
+    v.push(Corpus { name: "family_last_entry".into(), source: "thrift", include: Some(fam_dir), entries: vec![fam[n - 1].clone()], modes: vec!["single", "workspace"] });
+    v.push(Corpus { name: "family_big_namespace".into(), source: "thrift", include: None, entries: vec![fam[n].clone()], modes: vec!["single", "split"] });
+    v.push(Corpus { name: "family_type_graphs".into(), source: "thrift", include: None, entries: vec![fam[n + 1].clone()], modes: vec!["single", "single_iu", "workspace"] });
     v
 }
 
